@@ -2,6 +2,7 @@ package rules
 
 import (
 	"fmt"
+	"go/types"
 	"strings"
 
 	"golang.org/x/tools/go/ssa"
@@ -55,13 +56,25 @@ func ruleFlushImpls(c *core.Ctx, rule string) {
 		x.Track = func(atom string) bool { return strings.HasPrefix(atom, "nil(") }
 		// only helpers that flush the writer themselves are looked into (flushWriter(w), flushKeepingFirst(...))
 		x.Hooks.Inline = func(callee *ssa.Function, depth int) bool {
-			return c.P.InScope(callee) && reachesAny(callee, 2, "(*bufio.Writer).Flush", "(*encoding/csv.Writer).Flush", "(*encoding/csv.Writer).Error")
+			if !c.P.InScope(callee) {
+				return false
+			}
+			// ... and the methods of a writer that remembers its first error in a field (errWriter.Printf): the field is what
+			// the Flush method tests and returns
+			// ... and helpers that run steps handed to them as function values (firstError(step…)) together with the steps
+			// written inside the Flush method
+			own := false
+			for f := callee.Parent(); f != nil; f = f.Parent() {
+				own = own || f == fn
+			}
+			return own || takesFuncs(callee) || reachesAny(callee, 2, "(*bufio.Writer).Flush", "(*encoding/csv.Writer).Flush", "(*encoding/csv.Writer).Error") || keepsErrorField(callee)
 		}
 		x.Hooks.Call = func(x *absint.Exec, s *absint.State, site ssa.CallInstruction, callee *ssa.Function, fnv absint.Value, args []absint.Value) (absint.Value, bool) {
 			if callee == nil {
 				return nil, false
 			}
-			switch callee.String() {
+			// r.output.Flush handed over as a method value
+			switch strings.TrimSuffix(callee.String(), "$bound") {
 			case "(*bufio.Writer).Flush":
 				if _, isDefer := site.(*ssa.Defer); !isDefer {
 					s.SetData("flushed", "1")
@@ -100,22 +113,224 @@ func ruleFlushImpls(c *core.Ctx, rule string) {
 	}
 }
 
+// takesFuncs: a parameter of fn is a function or a list of functions.
+func takesFuncs(fn *ssa.Function) bool {
+	for _, p := range fn.Params {
+		t := p.Type().Underlying()
+		if sl, ok := t.(*types.Slice); ok {
+			t = sl.Elem().Underlying()
+		}
+		if _, ok := t.(*types.Signature); ok {
+			return true
+		}
+	}
+	return false
+}
+
+// keepsErrorField: a method on a pointer to a struct that has a field of type error.
+func keepsErrorField(fn *ssa.Function) bool {
+	recv := fn.Signature.Recv()
+	if recv == nil {
+		return false
+	}
+	pt, ok := recv.Type().Underlying().(*types.Pointer)
+	if !ok {
+		return false
+	}
+	st, ok := pt.Elem().Underlying().(*types.Struct)
+	if !ok {
+		return false
+	}
+	for i := 0; i < st.NumFields(); i++ {
+		if isErrorType(st.Field(i).Type()) {
+			return true
+		}
+	}
+	return false
+}
+
 func init() {
 	register(&Property{
 		ID:    "C17",
-		Rules: []string{"C17-R1", "C17-R2", "C17-R3"},
+		Rules: []string{"C17-R1", "C17-R2", "C17-R3", "C17-R4"},
 		Explain: "Decides that a failed write cannot end in success: C17-R1 must-flow — for every call of bufio.Writer.Flush, csv.Writer.Error, template Execute, every write that bypasses a sticky buffer, and every repository function that can return such an error (Reporter.Flush implementations, command functions, up to main), on every path on which the call fails the enclosing function returns a non-nil error (a deferred call whose result is dropped violates this); " +
 			"C17-R2 every Flush implementation reaches its writer's Flush/Error on every path that can return nil; " +
-			"C17-R3 no ParseCallback returns an error with stop=false (the parser would drop it). Every failing byte offset k is the single abstract event 'Flush returned non-nil' because buffered writers keep the first error.",
+			"C17-R3 no ParseCallback returns an error with stop=false (the parser would drop it); C17-R4 a buffered writer that lives inside one function is flushed after its last use (or by a deferred Flush) on every path on which the function can report success. Every failing byte offset k is the single abstract event 'Flush returned non-nil' because buffered writers keep the first error.",
 		NotDecided:  "behaviour of the kernel on a closed pipe (SIGPIPE ends the process first), whether each command creates its reporter over the configured output at all",
 		Assumptions: []string{"bufio.Writer and csv.Writer remember the first write error and return it from Flush()/Error()", "urfave/cli App.Run returns the action's error"},
 		Run: func(c *core.Ctx) {
 			runErrorFlow(c, "C17-R1", outputSeed(c.P))
 			ruleFlushImpls(c, "C17-R2")
 			ruleCallbackConsumers(c, map[string]bool{"C17-R3": true})
+			ruleLocalWriters(c, "C17-R4")
 		},
 		Canary: func(c *core.Ctx) {
 			runErrorFlow(c, "C17-R1", outputSeed(c.P))
+			ruleLocalWriters(c, "C17-R4")
 		},
 	})
+}
+
+// localWriterSites: calls of bufio.NewWriter / csv.NewWriter whose result stays local to the function — it is not
+// stored into a field, an element or a global and not returned (a reporter's constructor keeps its writer in the
+// reporter, whose Flush method C17-R2 judges).
+func localWriterSites(fn *ssa.Function) []*ssa.Call {
+	var out []*ssa.Call
+	for _, b := range fn.Blocks {
+		for _, in := range b.Instrs {
+			call, ok := in.(*ssa.Call)
+			if !ok || core.Callee(&call.Call) == nil {
+				continue
+			}
+			switch core.Callee(&call.Call).String() {
+			case "bufio.NewWriter", "bufio.NewWriterSize", "encoding/csv.NewWriter":
+			default:
+				continue
+			}
+			if !escapesToStorage(call, 0, map[ssa.Value]bool{}) {
+				out = append(out, call)
+			}
+		}
+	}
+	return out
+}
+
+func escapesToStorage(v ssa.Value, depth int, seen map[ssa.Value]bool) bool {
+	if depth > 4 || seen[v] || v.Referrers() == nil {
+		return false
+	}
+	seen[v] = true
+	for _, r := range *v.Referrers() {
+		switch t := r.(type) {
+		case *ssa.Return:
+			return true
+		case *ssa.Store:
+			if t.Val != v {
+				continue
+			}
+			switch a := t.Addr.(type) {
+			case *ssa.FieldAddr, *ssa.IndexAddr, *ssa.Global:
+				return true
+			case *ssa.Alloc:
+				// a local variable (possibly captured by closures): follow its loads
+				if a.Referrers() != nil {
+					for _, ar := range *a.Referrers() {
+						if ld, ok := ar.(*ssa.UnOp); ok && escapesToStorage(ld, depth+1, seen) {
+							return true
+						}
+					}
+				}
+			}
+		case *ssa.MakeInterface:
+			if escapesToStorage(t, depth+1, seen) {
+				return true
+			}
+		case *ssa.ChangeInterface:
+			if escapesToStorage(t, depth+1, seen) {
+				return true
+			}
+		case *ssa.Phi:
+			if escapesToStorage(t, depth+1, seen) {
+				return true
+			}
+		}
+	}
+	return false
+}
+
+// ruleLocalWriters is C17-R4: a buffered writer that lives only inside one function is flushed on every path on
+// which that function can report success — after the last use of the writer, or by a deferred Flush. Returning
+// nil while the buffer still holds output loses that output (lint's error lines under a buffered writer).
+func ruleLocalWriters(c *core.Ctx, rule string) {
+	n := 0
+	for _, fn := range c.P.Funcs {
+		if fn.Parent() != nil || len(fn.Blocks) == 0 {
+			continue
+		}
+		sites := localWriterSites(fn)
+		if len(sites) == 0 {
+			continue
+		}
+		isSite := map[ssa.CallInstruction]bool{}
+		for _, s := range sites {
+			isSite[s] = true
+		}
+		n++
+		fname := core.FuncName(fn)
+		pos := c.P.Pos(sites[0].Pos())
+		c.Universe(rule+" local buffered writers", fname+" ("+pos+")")
+		x := newExec(c)
+		x.Track = func(atom string) bool { return strings.HasPrefix(atom, "nil(") }
+		mentionsW := func(s *absint.State, args []absint.Value) bool {
+			w := s.Data["lwkey"]
+			if w == "" {
+				return false
+			}
+			for _, a := range args {
+				if iv, ok := a.(*absint.Iface); ok {
+					a = iv.V
+				}
+				if a.Key() == w {
+					return true
+				}
+			}
+			return false
+		}
+		x.Hooks.Call = func(x *absint.Exec, s *absint.State, site ssa.CallInstruction, callee *ssa.Function, fnv absint.Value, args []absint.Value) (absint.Value, bool) {
+			if isSite[site] {
+				v := x.Fresh(s, "lw")
+				s.SetData("lwkey", v.Key())
+				s.SetData("lw", "open")
+				x.AssumeNil(s, v, false)
+				return v, true
+			}
+			if callee == nil || s.Data["lwkey"] == "" {
+				return nil, false
+			}
+			name := strings.TrimSuffix(callee.String(), "$bound")
+			switch name {
+			case "(*bufio.Writer).Flush", "(*encoding/csv.Writer).Flush":
+				if mentionsW(s, args) || strings.HasSuffix(callee.String(), "$bound") {
+					if _, isDefer := site.(*ssa.Defer); isDefer {
+						s.SetData("lwdefer", "1")
+					} else {
+						s.SetData("lw", "flushed")
+					}
+				}
+				return nil, false
+			case "(*encoding/csv.Writer).Error":
+				return nil, false
+			}
+			if mentionsW(s, args) {
+				s.SetData("lw", "open")
+			}
+			return nil, false
+		}
+		terms := x.Run(x.NewState(fn, nil, nil))
+		if !account(c, x, rule, fn) {
+			continue
+		}
+		bad := ""
+		paths := 0
+		for _, tm := range terms {
+			if tm.Kind != "return" || tm.State.Data["lw"] == "" {
+				continue
+			}
+			if len(tm.Ret) > 0 && nilnessOf(x, tm.State, tm.Ret[len(tm.Ret)-1]) == "nonnil" {
+				continue
+			}
+			paths++
+			if tm.State.Data["lw"] == "open" && tm.State.Data["lwdefer"] != "1" && bad == "" {
+				bad = fmt.Sprintf("%s: the function can report success while its local buffered writer has not been flushed since it was last used (%s): whatever was written to it on this path never reaches the output", c.P.Pos(tm.Pos), x.Valuation(tm.State))
+			}
+		}
+		if bad != "" {
+			c.Violate(rule, fname, "local-writer", pos, bad, nil)
+		} else {
+			c.Discharge(rule, fname, "local-writer", pos, fmt.Sprintf("the local buffered writer is flushed after its last use on all %d paths that can report success", paths))
+		}
+	}
+	if n == 0 {
+		c.Note(rule + ": no function keeps a buffered writer to itself (every writer lives in a reporter; vacuous)")
+	}
 }
